@@ -26,6 +26,9 @@ type multiFetcher struct {
 	//
 	// Used to identify which fetcher to get the rest of the fields from in `GetFields`.
 	currentFetcherIndex int
+
+	// True if the document last returned from `NextDoc` has not been consumed by `GetFields`.
+	hasPendingDoc bool
 }
 
 var _ fetcher = (*multiFetcher)(nil)
@@ -55,6 +58,15 @@ type fetcherDocID struct {
 }
 
 func (f *multiFetcher) NextDoc() (immutable.Option[string], error) {
+	if f.hasPendingDoc {
+		// The consumer skipped the last document without fetching its fields (e.g. the permissioned
+		// fetcher when access is denied). It must be dropped, else it would be yielded forever.
+		if f.currentFetcherIndex >= 0 && f.currentFetcherIndex < len(f.children) {
+			f.children[f.currentFetcherIndex].docID = immutable.None[string]()
+		}
+		f.hasPendingDoc = false
+	}
+
 	selectedFetcherIndex := -1
 	var selectedDocID immutable.Option[string]
 
@@ -90,6 +102,7 @@ func (f *multiFetcher) NextDoc() (immutable.Option[string], error) {
 	}
 
 	f.currentFetcherIndex = selectedFetcherIndex
+	f.hasPendingDoc = selectedDocID.HasValue()
 	return selectedDocID, nil
 }
 
@@ -100,6 +113,7 @@ func (f *multiFetcher) GetFields() (immutable.Option[EncodedDocument], error) {
 	}
 
 	f.children[f.currentFetcherIndex].docID = immutable.None[string]()
+	f.hasPendingDoc = false
 
 	return doc, nil
 }
